@@ -310,8 +310,9 @@ Section Model.
         else Ok (to_upper id)
     end.
 
+  (** validateById (with fixes/F29: a candidate value must be positive) *)
   Definition validate_by_id (id : str) (n : Z) : bool :=
-    if Z.eqb n 0 then false
+    if Z.leb n 0 then false
     else if str_eqb id c_bpcount then negb (Z.ltb 100 n)
     else if str_eqb id c_stakingmin || str_eqb id c_gasprice || str_eqb id c_nameprice then negb (Z.ltb MaxAER n)
     else true.
